@@ -47,6 +47,7 @@ def run_entry(env, entry, cfg):
     def body():
         ENV.reset(env, bitlength=n, resolution=r)
         k = Kit(env, vals, n, r)
+        env.last_kit = k
         rt = env.rt
         if cfg.get("ignore"):
             rt.ignore_errors(True)
